@@ -136,7 +136,7 @@ func genLoop(family string, seed uint64, tier string, o loopOpts) *world.Scenari
 			}
 		}
 		// PWM map
-		mk := r.Intn(4)
+		mk := r.Intn(5)
 		if o.identityOnly {
 			mk = r.Intn(2)
 		}
@@ -174,6 +174,17 @@ func genLoop(family string, seed uint64, tier string, o loopOpts) *world.Scenari
 				}
 				m[k] = v
 				prev = v
+			}
+			f.PwmMap = &m
+		case 4: // dense user map with an offset and a slope (a fan that needs 60 to move at all)
+			m := map[int]int{}
+			a, b := r.Range(0, 90), r.Range(2, 4)
+			for k := 0; k <= 255; k++ {
+				v := a + b*k/4
+				if v > 255 {
+					v = 255
+				}
+				m[k] = v
 			}
 			f.PwmMap = &m
 		case 3: // quantising driver, discovered by the sweep
